@@ -6,8 +6,10 @@ import (
 	"fmt"
 	"os"
 	"path/filepath"
+	"reflect"
 	"runtime"
 	"runtime/pprof"
+	"sort"
 	"strings"
 	"sync"
 	"sync/atomic"
@@ -587,10 +589,22 @@ func vfsStartOverExistingFiles(r *core.Run) {
 		}
 		rec := vfNewRecorder()
 		sentinel := make(chan struct{})
-		var once sync.Once
+		var once, change sync.Once
+		// every second round the sources also really change while the initial load is under way: one file gets new content,
+		// one file appears. The latest content has to win once things are quiet.
+		changing := n%2 == 1
+		changedID, addedID := fmt.Sprintf("st%d-a-v2", n), fmt.Sprintf("st%d-d", n)
 		rec.notify = func(c vfCall) {
 			if strings.HasPrefix(c.Content, "sentinel-") {
 				once.Do(func() { close(sentinel) })
+				return
+			}
+			if changing {
+				change.Do(func() {
+					_ = os.WriteFile(filepath.Join(dir, ids[0]+".yaml"), []byte(vfRuleSetYAML(changedID)), 0o600)
+					_ = os.WriteFile(filepath.Join(dir, addedID+".yaml"), []byte(vfRuleSetYAML(addedID)), 0o600)
+				})
+				time.Sleep(15 * time.Millisecond)
 				return
 			}
 			// every processor call takes a while, and meanwhile all files are touched (same content, new mtime, write event)
@@ -634,6 +648,23 @@ func vfsStartOverExistingFiles(r *core.Run) {
 		r.Case(fmt.Sprintf("fs|start-over-existing-files|%d", n), true)
 		r.Eval(1)
 		r.Count("fs_starts_over_existing_files", 1)
+		if changing {
+			r.Count("fs_starts_with_sources_changing_during_the_initial_load", 1)
+			active := map[string]bool{}
+			for src, content := range rec.snapshot() {
+				if !strings.Contains(src, "zz-sentinel") {
+					active[content] = true
+				}
+			}
+			want := map[string]bool{changedID: true, ids[1]: true, ids[2]: true, addedID: true}
+			if !reflect.DeepEqual(active, want) {
+				r.Violation("fs-changes-during-initial-load-lost", fmt.Sprintf("file_system: while the initial load was running, %s.yaml got new content (%s) and %s.yaml appeared; active afterwards: %v, latest valid content: %v",
+					ids[0], changedID, addedID, keysOfBool(active), keysOfBool(want)),
+					map[string]any{"provider": "file_system", "mode": "start while sources change (watch: true)", "calls": all})
+			}
+			_ = os.RemoveAll(dir)
+			continue
+		}
 		for _, id := range ids {
 			if ops := perContent[id]; len(ops) != 1 || ops[0] != "C" {
 				r.Violation("fs-content-not-applied-exactly-once", fmt.Sprintf("file_system: rule set %s, present at start and touched (unchanged) during the initial load, caused the calls %v; expected exactly one C", id, ops),
@@ -643,6 +674,15 @@ func vfsStartOverExistingFiles(r *core.Run) {
 		}
 		_ = os.RemoveAll(dir)
 	}
+}
+
+func keysOfBool(m map[string]bool) []string {
+	var out []string
+	for k := range m {
+		out = append(out, k)
+	}
+	sort.Strings(out)
+	return out
 }
 
 func vfsRunWatch(r *core.Run, dir string, n int, seq []int, st *vfStats) (int, bool) {
